@@ -993,7 +993,7 @@ def protective_and_falsy_configs():
 
 def cache_kind_families(rng, quick):
     """the enumerated one- and two-guard histories on every new cache kind, over the quadruples whose permits carry
-    obligations that the context meets / does not meet (ctx, ctxw) and, thorough, the others"""
+    obligations that the context meets / does not meet (ctx, ctxw) and, thorough, num and ids (sampled: all)"""
     for kind in NEW_CACHE_KINDS:
         one, one_s = cfg(kind, TTL, False), cfg(kind, None, True)
         two, two_same = cfg(kind, TTL, False, two="other"), cfg(kind, TTL, False, two="same", strict2=True)
@@ -1002,11 +1002,11 @@ def cache_kind_families(rng, quick):
             yield from enum_family(two, ["ctx"], 2, "enum-cache-kinds")
             yield from sample_family(rng, [one, one_s, two, two_same], 60, 3, 5, "enum-cache-kinds-longer-sampled")
         else:
-            yield from enum_family(one, QUAD_NAMES, 3, "enum-cache-kinds")
-            yield from enum_family(one_s, ["ctx", "ctxw", "num"], 3, "enum-cache-kinds")
-            yield from enum_family(two, ["ctx", "ctxw", "num"], 3, "enum-cache-kinds")
-            yield from enum_family(two_same, ["ctx", "ctxw"], 3, "enum-cache-kinds")
-            yield from sample_family(rng, [one, one_s, two, two_same], 1500, 4, 7, "enum-cache-kinds-longer-sampled")
+            yield from enum_family(one, ["ctx", "ctxw", "num", "ids"], 3, "enum-cache-kinds")
+            yield from enum_family(one_s, ["ctx", "ctxw"], 3, "enum-cache-kinds")
+            yield from enum_family(two, ["ctx", "ctxw"], 3, "enum-cache-kinds")
+            yield from enum_family(two_same, ["ctx"], 3, "enum-cache-kinds")
+            yield from sample_family(rng, [one, one_s, two, two_same], 800, 4, 7, "enum-cache-kinds-longer-sampled")
 
 
 def random_history(rng, lo, hi, configs=None):
@@ -1674,6 +1674,17 @@ def run(chk):
                 "operand, obligation attrs): Guard(p).policy_etag of both; one etag (not None) for two policies that are not the "
                 "same JSON value refutes tag_inj, and then histories 'one engine evaluates, the other sharing the cache evaluates "
                 "the same request' are searched for the failing input. "
+                "CACHE COLLABORATORS THAT PROTECT THEIR ENTRIES OR ARE FALSY (compared with the model like LRU / dict / pickling: a "
+                "read-only view or a snapshot taken at get() is a reference-storing cache to a reader that cannot write, a falsy "
+                "cache object is the cache it implements): get() returning types.MappingProxyType views of the stored mapping (dict- "
+                "and DefaultInMemoryCache-backed), get() returning an immutable snapshot (read-only view of a private deep copy), "
+                "deep copies at set() and get(); a dict SUBCLASS implementing get/set/delete/clear (empty = falsy at construction), "
+                "a cache with __len__ = number of entries, a DefaultInMemoryCache with __bool__ False: per kind ALL histories of "
+                "length <= 2 (thorough <= 3) over the one-guard alphabet for the quadruples whose permits carry obligations the "
+                "context meets / does not meet (ctx, ctxw; thorough also num, ids, and a strict engine) and over the two-guard "
+                "alphabet (other policy; thorough also same policy in the other mode), seeded longer words, seeded samples across "
+                "TTL {None,0,2} x modes x one/two guards and seeded random histories over the whole pools on these kinds; the "
+                "resolver histories draw them too. "
                 "REQUESTS CARRYING VALUES THAT ARE NOT JSON (the slow path of the cache key; judged on the implementation alone): "
                 "%d values (aware / naive datetime, date, time, Decimal, tuple, set, frozenset, bytes, an application object, a tuple "
                 "holding a datetime) x %d sites (an unread attribute of resource / subject / context, nested in a list / object, both "
@@ -1701,6 +1712,10 @@ def run(chk):
         "non-str keys are not generated",
         "both guards use the built-in obligation checker (a second guard with ANOTHER checker sharing a reference-storing cache "
         "is outside the statement's quantifier; the model exhibits the leak of raw['reason'] there: c08_other_checker_leaks)",
+        "custom caches keep the contract `get returns what set stored`: the read-only kinds hand out VIEWS / snapshots taken "
+        "at get() of the stored mapping (so the engine's own in-place `raw['reason']` write of the storing evaluation is seen). "
+        "A cache that freezes a COPY at set() is not generated: on the unchanged tree its hits report reason='matched' instead of "
+        "'obligation_failed' for a refused permit (allowed/effect are right; the write raises and is swallowed) - reported, not listed",
         "the relationship checker is a fixed set of facts (no state)",
         "role resolver: read as part of 'the same engine configuration' — the uncached engine the statement compares with holds "
         "the same current policy AND the same collaborator objects at the same point of the history, so a resolver whose answers "
